@@ -63,6 +63,10 @@ class Ctx:
         self.t0 = time.time()
         base = os.environ.get("VERIF_TMP", tempfile.gettempdir())
         self.scratch = tempfile.mkdtemp(prefix="verif-%s-" % pid, dir=base)
+        # a Go build cache of its own, inside the scratch directory (removed with it): the generated programs of a run are all different, in
+        # the shared default cache they pile up (100 GB after a day of runs); costs one cold build of the standard library per run (about 7 s)
+        if not os.environ.get("VERIF_SHARED_GOCACHE"):
+            GOENV["GOCACHE"] = os.path.join(self.scratch, "gocache")
         self.repo = None
         self.bins = {}
         self.states = 0
